@@ -33,6 +33,11 @@ def run(ck):
     _m = lambda n: _il.import_module('props.' + n)
     _c7.import_results(ck, _m("C16"), "3", "Poll::", "7")  # the executor's eventfd keeps its level-triggered mode across update()
     _c7.dispatch_infra(ck, "7")  # a deferred request never overrides the Remove of an ended stream
+    # ---- shared clauses demonstrated by the twin round (seeding round 10) ------------------------------------------
+    from props import common as _c10
+    import importlib as _il10
+    _m10 = lambda n: _il10.import_module('props.' + n)
+    _c10.import_results(ck, _m10("C08"), "1", "Executor", "2")  # no executor borrow is live across the user callback: scheduling from the callback works
 
 
 def executor(ck):
